@@ -219,19 +219,19 @@ def isAllowed (c x : Val) : Bool :=
   | .ok b => b
   | .error _ => false
 
-def hAllowed (env : Env) (ctx : Ctx) (schema doc : Val) (f : Key) (c v : Val) : M HOut := do
+def hAllowed (env : Env) (ctx : Ctx) (schema doc : Val) (f : Key) (c v : Val) : M (List ESpec) := do
   if v.isIterable && !v.isStr then
     let xs ← liftPy (v.pyIter? "_validate_allowed")
     let un := xs.filter (fun x => !isAllowed c x)
-    if un.isEmpty then pure {}
+    if un.isEmpty then pure []
     else
       let e := ({ code := Code.UNALLOWED_VALUES, rule := some "allowed", info := [.seq true un], kids := [] } : ESpec)
-      pure { errs := [e] }
+      pure [e]
   else
-    if isAllowed c v then pure {}
+    if isAllowed c v then pure []
     else
       let e := ({ code := Code.UNALLOWED_VALUE, rule := some "allowed", info := [v], kids := [] } : ESpec)
-      pure { errs := [e] }
+      pure [e]
 
 def filterIn (site : String) (c : Val) : List Val → M (List Val)
   | [] => pure []
@@ -241,24 +241,24 @@ def filterIn (site : String) (c : Val) : List Val → M (List Val)
     pure (if isIn then x :: r else r)
 
 /-- after the repair of F3: `[x for x in value if x in forbidden_values]` -/
-def hForbidden (env : Env) (ctx : Ctx) (schema doc : Val) (f : Key) (c v : Val) : M HOut := do
+def hForbidden (env : Env) (ctx : Ctx) (schema doc : Val) (f : Key) (c v : Val) : M (List ESpec) := do
   if v.isSeqNotStr then
     let xs ← liftPy (v.pyIter? "_validate_forbidden")
     let fb ← filterIn "_validate_forbidden" c xs
-    if fb.isEmpty then pure {}
+    if fb.isEmpty then pure []
     else
       let e := ({ code := Code.FORBIDDEN_VALUES, rule := some "forbidden", info := [.seq false fb], kids := [] } : ESpec)
-      pure { errs := [e] }
+      pure [e]
   else
     let isIn ← liftPy (Val.pyIn? "_validate_forbidden" c v)
     if isIn then
       let e := ({ code := Code.FORBIDDEN_VALUE, rule := some "forbidden", info := [v], kids := [] } : ESpec)
-      pure { errs := [e] }
-    else pure {}
+      pure [e]
+    else pure []
 
 /-- after the repair of F4: members of the expected set that equal no member of the value -/
-def hContains (env : Env) (ctx : Ctx) (schema doc : Val) (f : Key) (c v : Val) : M HOut := do
-  if !v.isIterable then return {}
+def hContains (env : Env) (ctx : Ctx) (schema doc : Val) (f : Key) (c v : Val) : M (List ESpec) := do
+  if !v.isIterable then return []
   let expected ←
     if !c.isIterable || c.isStr then pure [c]
     else do
@@ -266,27 +266,27 @@ def hContains (env : Env) (ctx : Ctx) (schema doc : Val) (f : Key) (c v : Val) :
       liftPy (Val.pySet? "_validate_contains" xs)
   let have_ ← liftPy (v.pyIter? "_validate_contains")
   let missing := expected.filter (fun x => !(have_.any (fun y => Val.pyEq x y)))
-  if missing.isEmpty then pure {}
+  if missing.isEmpty then pure []
   else
     let e := ({ code := Code.MISSING_MEMBERS, rule := some "contains", info := [.seq false missing], kids := [] } : ESpec)
-    pure { errs := [e] }
+    pure [e]
 
-def hMin (env : Env) (ctx : Ctx) (schema doc : Val) (f : Key) (c v : Val) : M HOut := do
+def hMin (env : Env) (ctx : Ctx) (schema doc : Val) (f : Key) (c v : Val) : M (List ESpec) := do
   match Val.pyLt? v c with
   | some true =>
     let e := ({ code := Code.MIN_VALUE, rule := some "min", info := [], kids := [] } : ESpec)
-    pure { errs := [e] }
-  | _ => pure {}
+    pure [e]
+  | _ => pure []
 
-def hMax (env : Env) (ctx : Ctx) (schema doc : Val) (f : Key) (c v : Val) : M HOut := do
+def hMax (env : Env) (ctx : Ctx) (schema doc : Val) (f : Key) (c v : Val) : M (List ESpec) := do
   match Val.pyLt? c v with
   | some true =>
     let e := ({ code := Code.MAX_VALUE, rule := some "max", info := [], kids := [] } : ESpec)
-    pure { errs := [e] }
-  | _ => pure {}
+    pure [e]
+  | _ => pure []
 
-def hLength (env : Env) (ctx : Ctx) (schema doc : Val) (f : Key) (c v : Val) (isMin : Bool) : M HOut := do
-  if !v.isIterable then return {}
+def hLength (env : Env) (ctx : Ctx) (schema doc : Val) (f : Key) (c v : Val) (isMin : Bool) : M (List ESpec) := do
+  if !v.isIterable then return []
   let n ← liftPy (v.pyLen? "_validate_length")
   match c.num? with
   | none => raisePy "TypeError" "_validate_length"
@@ -295,20 +295,20 @@ def hLength (env : Env) (ctx : Ctx) (schema doc : Val) (f : Key) (c v : Val) (is
     if bad then
       let e : ESpec := { code := if isMin then Code.MIN_LENGTH else Code.MAX_LENGTH,
                          rule := some (if isMin then "minlength" else "maxlength"), info := [.int n] }
-      pure { errs := [e] }
-    else pure {}
+      pure [e]
+    else pure []
 
-def hRegex (env : Env) (ctx : Ctx) (schema doc : Val) (f : Key) (c v : Val) : M HOut := do
+def hRegex (env : Env) (ctx : Ctx) (schema doc : Val) (f : Key) (c v : Val) : M (List ESpec) := do
   match v, c with
   | .str s, .str pat =>
     match env.rx pat s with
     | none => .error (.oracle ("rx\t" ++ pat ++ "\t" ++ s))
-    | some true => pure {}
+    | some true => pure []
     | some false =>
       let e := ({ code := Code.REGEX_MISMATCH, rule := some "regex", info := [], kids := [] } : ESpec)
-      pure { errs := [e] }
+      pure [e]
   | .str _, _ => raisePy "AttributeError" "_validate_regex"
-  | _, _ => pure {}
+  | _, _ => pure []
 
 def depName (site : String) : Val → M String
   | .str s => pure s
@@ -338,7 +338,7 @@ def depsMapping (ctx : Ctx) (doc : Val) : List (Key × Val) → M (List (Key × 
     let rest ← depsMapping ctx doc r
     pure (if allowed.any (fun a => Val.pyEq wanted a) then rest else (k, wanted) :: rest)
 
-def hDependencies (env : Env) (ctx : Ctx) (schema doc : Val) (f : Key) (c v : Val) : M HOut := do
+def hDependencies (env : Env) (ctx : Ctx) (schema doc : Val) (f : Key) (c v : Val) : M (List ESpec) := do
   let _ := v
   let deps := if c.isStr || !(c.isIterable || c.isMapping) then Val.seq true [c] else c
   let errs : List ESpec ← match deps with
@@ -348,7 +348,7 @@ def hDependencies (env : Env) (ctx : Ctx) (schema doc : Val) (f : Key) (c v : Va
       if bad.isEmpty then pure []
       else pure [{ code := Code.DEPENDENCIES_FIELD_VALUE, rule := some "dependencies", info := [.dict bad] }]
     | _ => pure []
-  pure { errs }
+  pure errs
 
 def keyIn (kvs : List (Key × Val)) (x : Val) : Bool :=
   match x.toKey? with
@@ -372,22 +372,22 @@ def hExcludes (env : Env) (ctx : Ctx) (schema doc : Val) (f : Key) (c v : Val) :
 
 /-- after the repair of F1: a value that is not sized/iterable is skipped -/
 def hItems (env : Env) (rec : Rec) (ctx : Ctx) (schema doc : Val) (f : Key) (c v : Val) (upd : Bool) :
-    M HOut := do
-  if !(v.isSized && v.isIterable) then return {}
+    M (List ESpec) := do
+  if !(v.isSized && v.isIterable) then return []
   let n ← liftPy (c.pyLen? "_validate_items")
   let m ← liftPy (v.pyLen? "_validate_items")
   if n != m then
     let e := ({ code := Code.ITEMS_LENGTH, rule := some "items", info := [.int n, .int m], kids := [] } : ESpec)
-    pure { errs := [e] }
+    pure [e]
   else
     let defs ← liftPy (c.pyIter? "_validate_items")
     let vals ← liftPy (v.pyIter? "_validate_items")
     let cctx := ctx.child doc {} (some f) [f, kS "items"]
     let cerrs ← rec cctx (.dict (Val.enumDict defs)) (.dict (Val.enumDict vals)) upd
-    if cerrs.isEmpty then pure {}
+    if cerrs.isEmpty then pure []
     else
       let e := ({ code := Code.BAD_ITEMS, rule := some "items", info := [], kids := cerrs } : ESpec)
-      pure { errs := [e] }
+      pure [e]
 
 def hSchema (env : Env) (rec : Rec) (ctx : Ctx) (schema doc : Val) (f : Key) (c v : Val) (upd : Bool) :
     M HOut := do
@@ -424,31 +424,31 @@ def hSchema (env : Env) (rec : Rec) (ctx : Ctx) (schema doc : Val) (f : Key) (c 
     | .error x => .error x
   | _ => pure {}
 
-def hKeysrules (env : Env) (rec : Rec) (ctx : Ctx) (schema doc : Val) (f : Key) (c v : Val) : M HOut := do
+def hKeysrules (env : Env) (rec : Rec) (ctx : Ctx) (schema doc : Val) (f : Key) (c v : Val) : M (List ESpec) := do
   match v with
   | .dict kvs =>
     let keys := Val.dkeys kvs
     let cctx := ctx.child doc {} (some f) [f, kS "keysrules"]
     let cerrs ← rec cctx (.dict (keys.map (fun k => (k, c)))) (.dict (keys.map (fun k => (k, k.toVal)))) false
-    if cerrs.isEmpty then pure {}
+    if cerrs.isEmpty then pure []
     else
       let kids := dropSpL ctx.schemaPath.length [2] cerrs
       let e := ({ code := Code.KEYSRULES, rule := some "keysrules", info := [], kids := kids } : ESpec)
-      pure { errs := [e] }
-  | _ => pure {}
+      pure [e]
+  | _ => pure []
 
 def hValuesrules (env : Env) (rec : Rec) (ctx : Ctx) (schema doc : Val) (f : Key) (c v : Val) (upd : Bool) :
-    M HOut := do
+    M (List ESpec) := do
   match v with
   | .dict kvs =>
     let cctx := ctx.child doc {} (some f) [f, kS "valuesrules"]
     let cerrs ← rec cctx (.dict ((Val.dkeys kvs).map (fun k => (k, c)))) v upd
-    if cerrs.isEmpty then pure {}
+    if cerrs.isEmpty then pure []
     else
       let kids := dropSpL ctx.schemaPath.length [2] cerrs
       let e := ({ code := Code.VALUESRULES, rule := some "valuesrules", info := [], kids := kids } : ESpec)
-      pure { errs := [e] }
-  | _ => pure {}
+      pure [e]
+  | _ => pure []
 
 /-- `__validate_logical`: per definition a child validation of the *whole* current
     document against `{field: definition + inherited type/allow_unknown}` (after the
@@ -474,7 +474,7 @@ def logicalDefs (env : Env) (rec : Rec) (ctx : Ctx) (schema doc : Val) (f : Key)
     else pure (n, dropSpL ctx.schemaPath.length [3] cerrs ++ es)
 
 def hLogical (env : Env) (rec : Rec) (ctx : Ctx) (schema doc : Val) (f : Key) (op : String) (code : Nat)
-    (c v : Val) (upd : Bool) : M HOut := do
+    (c v : Val) (upd : Bool) : M (List ESpec) := do
   let _ := v
   let defs ← liftPy (c.pyIter? "__validate_logical")
   let rs ← fieldRules env schema f "__validate_logical"
@@ -487,8 +487,8 @@ def hLogical (env : Env) (rec : Rec) (ctx : Ctx) (schema doc : Val) (f : Key) (o
     | _ => valids != 1
   if failed then
     let e : ESpec := { code := code, rule := some op, info := [.int valids, .int n], kids := errs }
-    pure { errs := [e] }
-  else pure {}
+    pure [e]
+  else pure []
 
 def checkOne (env : Env) (v : Val) : Val → M (List ESpec)
   | .str name | .fn name =>
@@ -504,10 +504,16 @@ def checkAll (env : Env) (v : Val) : List Val → M (List ESpec)
     let b ← checkAll env v cs
     pure (a ++ b)
 
-def hCheckWith (env : Env) (c v : Val) : M HOut := do
+def hCheckWith (env : Env) (c v : Val) : M (List ESpec) := do
   match c with
-  | .seq _ xs => pure { errs := ← checkAll env v xs }
-  | _ => pure { errs := ← checkOne env v c }
+  | .seq _ xs => checkAll env v xs
+  | _ => checkOne env v c
+
+/-- a handler that only files errors: nothing is dropped, the evaluation goes on -/
+def errsOnly (x : M (List ESpec)) : M HOut :=
+  match x with
+  | .ok es => .ok { errs := es }
+  | .error e => .error e
 
 /-- dispatch of `validate_rule(rule)`; `sofar` = errors this validator has recorded so far -/
 def handler (env : Env) (t : Tables) (rec : Rec) (ctx : Ctx) (schema doc : Val) (upd : Bool)
@@ -518,25 +524,25 @@ def handler (env : Env) (t : Tables) (rec : Rec) (ctx : Ctx) (schema doc : Val) 
   | "readonly" => hReadonly env ctx schema doc f c v sofar
   | "type" => hType env t ctx schema doc f c v
   | "empty" => hEmpty env t ctx schema doc f c v
-  | "allowed" => hAllowed env ctx schema doc f c v
-  | "forbidden" => hForbidden env ctx schema doc f c v
-  | "contains" => hContains env ctx schema doc f c v
-  | "min" => hMin env ctx schema doc f c v
-  | "max" => hMax env ctx schema doc f c v
-  | "minlength" => hLength env ctx schema doc f c v true
-  | "maxlength" => hLength env ctx schema doc f c v false
-  | "regex" => hRegex env ctx schema doc f c v
-  | "dependencies" => hDependencies env ctx schema doc f c v
+  | "allowed" => errsOnly (hAllowed env ctx schema doc f c v)
+  | "forbidden" => errsOnly (hForbidden env ctx schema doc f c v)
+  | "contains" => errsOnly (hContains env ctx schema doc f c v)
+  | "min" => errsOnly (hMin env ctx schema doc f c v)
+  | "max" => errsOnly (hMax env ctx schema doc f c v)
+  | "minlength" => errsOnly (hLength env ctx schema doc f c v true)
+  | "maxlength" => errsOnly (hLength env ctx schema doc f c v false)
+  | "regex" => errsOnly (hRegex env ctx schema doc f c v)
+  | "dependencies" => errsOnly (hDependencies env ctx schema doc f c v)
   | "excludes" => hExcludes env ctx schema doc f c v
-  | "items" => hItems env rec ctx schema doc f c v upd
+  | "items" => errsOnly (hItems env rec ctx schema doc f c v upd)
   | "schema" => hSchema env rec ctx schema doc f c v upd
-  | "keysrules" => hKeysrules env rec ctx schema doc f c v
-  | "valuesrules" => hValuesrules env rec ctx schema doc f c v upd
-  | "anyof" => hLogical env rec ctx schema doc f "anyof" Code.ANYOF c v upd
-  | "allof" => hLogical env rec ctx schema doc f "allof" Code.ALLOF c v upd
-  | "noneof" => hLogical env rec ctx schema doc f "noneof" Code.NONEOF c v upd
-  | "oneof" => hLogical env rec ctx schema doc f "oneof" Code.ONEOF c v upd
-  | "check_with" => hCheckWith env c v
+  | "keysrules" => errsOnly (hKeysrules env rec ctx schema doc f c v)
+  | "valuesrules" => errsOnly (hValuesrules env rec ctx schema doc f c v upd)
+  | "anyof" => errsOnly (hLogical env rec ctx schema doc f "anyof" Code.ANYOF c v upd)
+  | "allof" => errsOnly (hLogical env rec ctx schema doc f "allof" Code.ALLOF c v upd)
+  | "noneof" => errsOnly (hLogical env rec ctx schema doc f "noneof" Code.NONEOF c v upd)
+  | "oneof" => errsOnly (hLogical env rec ctx schema doc f "oneof" Code.ONEOF c v upd)
+  | "check_with" => errsOnly (hCheckWith env c v)
   | _ => raisePy "RuntimeError" "__get_rule_handler"
 
 /-! ### the rule queue -/
@@ -558,33 +564,42 @@ structure QState where
     removing dropped rules from the remaining queue is the same as skipping them
     when their turn comes. -/
 def runQueue (h : List Err → String → M (HOut × List Err)) : List String → QState → M QState
-  | [], s => pure s
+  | [], s => .ok s
   | r :: rs, s =>
     if s.stopped || s.dropped.contains r then runQueue h rs s
-    else do
-      let (o, es) ← h s.errs r
-      runQueue h rs { errs := s.errs ++ es, dropped := s.dropped ++ o.drop,
-                      stopped := o.dropAll, unreq := s.unreq ++ o.unreq }
+    else
+      match h s.errs r with
+      | .error e => .error e
+      | .ok (o, es) =>
+        runQueue h rs { errs := s.errs ++ es, dropped := s.dropped ++ o.drop,
+                        stopped := o.dropAll, unreq := s.unreq ++ o.unreq }
 
 def ruleNames (defs : Val) : M (List String) :=
   match defs with
   | .dict kvs => pure (kvs.filterMap (fun kv => match kv.1 with | .s x => some x | .i _ => none))
   | _ => raisePy "TypeError" "__validate_definitions"
 
+/-- one step of the queue: the handler's verdict and the errors it files -/
+def runRule (env : Env) (t : Tables) (rec : Rec) (ctx : Ctx) (schema doc : Val) (upd : Bool)
+    (f : Key) (defs v : Val) (sofar : List Err) (rule : String) : M (HOut × List Err) :=
+  match handler env t rec ctx schema doc upd f defs v sofar rule with
+  | .error e => .error e
+  | .ok o =>
+    match buildErrs env ctx schema doc f o.errs with
+    | .error e => .error e
+    | .ok es => .ok (o, es)
+
 /-- `__validate_definitions(definitions, field)` -/
 def validateDefinitions (env : Env) (t : Tables) (rec : Rec) (ctx : Ctx) (schema doc : Val) (upd : Bool)
-    (f : Key) (definitions : Val) (v : Val) (s : QState) : M QState := do
-  let defs ← match env.resolveRulesSet definitions with
-    | some d => pure d
-    | none => raisePy "TypeError" "__validate_definitions"
-  let names ← ruleNames defs
-  let q := buildQueue t names
-  let s' ← runQueue (fun sofar rule => do
-                let o ← handler env t rec ctx schema doc upd f defs v sofar rule
-                let es ← buildErrs env ctx schema doc f o.errs
-                pure (o, es)) q
-              { s with dropped := [], stopped := false }
-  pure s'
+    (f : Key) (definitions : Val) (v : Val) (s : QState) : M QState :=
+  match env.resolveRulesSet definitions with
+  | none => raisePy "TypeError" "__validate_definitions"
+  | some defs =>
+    match ruleNames defs with
+    | .error e => .error e
+    | .ok names =>
+      runQueue (runRule env t rec ctx schema doc upd f defs v) (buildQueue t names)
+        { s with dropped := [], stopped := false }
 
 /-- `__validate_unknown_fields(field)` -/
 def validateUnknown (rec : Rec) (ctx : Ctx) (doc : Val) (f : Key) (v : Val) : M (List Err) := do
@@ -598,23 +613,31 @@ def validateUnknown (rec : Rec) (ctx : Ctx) (doc : Val) (f : Key) (v : Val) : M 
   else
     pure [.mk (ctx.docPath ++ [f]) ctx.schemaPath false Code.UNKNOWN_FIELD none .none v [] []]
 
+/-- one iteration of `for field in self.document` -/
+def validateField (env : Env) (t : Tables) (rec : Rec) (ctx : Ctx) (schema : Val)
+    (skvs : List (Key × Val)) (doc : Val) (upd : Bool) (f : Key) (v : Val) (s : QState) : M QState :=
+  if ctx.cfg.ignoreNone && v.isNone then .ok s
+  else
+    match Val.dlookup skvs f with
+    | some definitions =>
+      if definitions.isNone then
+        match validateUnknown rec ctx doc f v with
+        | .error e => .error e
+        | .ok es => .ok { s with errs := s.errs ++ es }
+      else validateDefinitions env t rec ctx schema doc upd f definitions v s
+    | none =>
+      match validateUnknown rec ctx doc f v with
+      | .error e => .error e
+      | .ok es => .ok { s with errs := s.errs ++ es }
+
 /-- the loop over the document's fields -/
 def validateFields (env : Env) (t : Tables) (rec : Rec) (ctx : Ctx) (schema : Val)
     (skvs : List (Key × Val)) (doc : Val) (upd : Bool) : List (Key × Val) → QState → M QState
-  | [], s => pure s
-  | (f, v) :: r, s => do
-    if ctx.cfg.ignoreNone && v.isNone then validateFields env t rec ctx schema skvs doc upd r s
-    else
-      let s1 ← match Val.dlookup skvs f with
-        | some definitions =>
-          if definitions.isNone then do
-            let es ← validateUnknown rec ctx doc f v
-            pure { s with errs := s.errs ++ es }
-          else validateDefinitions env t rec ctx schema doc upd f definitions v s
-        | none => do
-          let es ← validateUnknown rec ctx doc f v
-          pure { s with errs := s.errs ++ es }
-      validateFields env t rec ctx schema skvs doc upd r s1
+  | [], s => .ok s
+  | (f, v) :: r, s =>
+    match validateField env t rec ctx schema skvs doc upd f v s with
+    | .error e => .error e
+    | .ok s1 => validateFields env t rec ctx schema skvs doc upd r s1
 
 /-- is `required` (or `require_all`) literally `True` for this definition? -/
 def isRequired (env : Env) (ctx : Ctx) (definition : Val) : M Bool :=
@@ -656,16 +679,21 @@ def validateRequired (env : Env) (ctx : Ctx) (schema : Val) (skvs : List (Key ×
     after `__init_processing`); `pre` = the instance's error list at that point (the errors
     of normalization when it ran on this instance), `unreq0` = its `_unrequired_by_excludes` -/
 def validateMapping (env : Env) (t : Tables) (rec : Rec) (ctx : Ctx) (schema doc : Val) (upd : Bool)
-    (pre : List Err) (unreq0 : List Key) : M (List Err) := do
-  let dkvs ← match doc with
-    | .dict kvs => pure kvs
-    | _ => raisePy "DocumentError" "__init_processing"
-  let skvs ← match env.resolveSchema schema with
-    | some (.dict kvs) => pure kvs
+    (pre : List Err) (unreq0 : List Key) : M (List Err) :=
+  match doc with
+  | .dict dkvs =>
+    match env.resolveSchema schema with
+    | some (.dict skvs) =>
+      match validateFields env t rec ctx schema skvs doc upd dkvs { errs := pre, unreq := unreq0 } with
+      | .error e => .error e
+      | .ok s =>
+        if upd then .ok s.errs
+        else
+          match validateRequired env ctx schema skvs doc dkvs s.unreq with
+          | .error e => .error e
+          | .ok req => .ok (s.errs ++ req)
     | _ => raisePy "SchemaError" "__init_processing"
-  let s ← validateFields env t rec ctx schema skvs doc upd dkvs { errs := pre, unreq := unreq0 }
-  let req ← if upd then pure [] else validateRequired env ctx schema skvs doc dkvs s.unreq
-  pure (s.errs ++ req)
+  | _ => raisePy "DocumentError" "__init_processing"
 
 end V
 
